@@ -9,6 +9,7 @@ from core.ctx import REPO
 from . import _c03_expr as X
 from . import _c03_aux as AUX
 from . import _c03_aux2 as AUX2
+from . import _c03_aux3 as AUX3
 
 ID = "C03"
 LEAN_MODULES = ["NiftyVerif.Core.Proto", "NiftyVerif.Model.Expr", "NiftyVerif.Model.ExprIO", "NiftyVerif.Props.C03Ptw", "NiftyVerif.Props.C03Sinc", "NiftyVerif.Props.C03", "NiftyVerif.Props.C03Adj", "NiftyVerif.Props.C03Complex", "NiftyVerif.Model.Cplx"]
@@ -433,6 +434,8 @@ def oracle(case):
     """the property on the REAL code only"""
     if case.get("aux") in ("creal", "jaxop", "mlin"):
         return AUX2.oracle(case)
+    if case.get("aux") == "spaces":
+        return AUX3.oracle(case)
     if "aux" in case:
         return AUX.oracle(case)
     if case.get("complex"):
@@ -444,6 +447,9 @@ def oracle(case):
             return ("complex constants/input: value on a Linearization differs from plain evaluation", dict(sigc, kind="value"))
         if not cclose(r["adj"], r["jac"].conj().T, 1e-12):
             return ("complex constants/input: adjoint Jacobian is not the conjugate transpose", dict(sigc, kind="adjoint"))
+        if not cclose(r["adj_real"], r["jac"].conj().T, 1e-12):
+            return ("complex constants/input: adjoint Jacobian applied to REAL-dtype cotangents is not the conjugate transpose",
+                    dict(sigc, kind="adjoint-real-cotangent"))
         return None
     if case.get("kind") == "ptw" or case.get("op") == "ptw":
         names, meta = names_meta()
@@ -582,6 +588,14 @@ def complex_real(case):
             res = dict(val=X.to_flat(lin.val, tdom), pval=X.to_flat(op(p), tdom),
                        jac=X.dense(lin.jac, b, din, tdom, np.complex128),
                        adj=X.dense(lin.jac.adjoint_times, b, tdom, din, np.complex128), din=din, z0=z0)
+            # the adjoint applied to cotangents of REAL dtype (what a real-part node or a real energy above hands down)
+            nout = X.nflat(tdom)
+            ar = np.zeros((X.nflat(din), nout), dtype=np.complex128)
+            for i in range(nout):
+                e = np.zeros(nout)
+                e[i] = 1
+                ar[:, i] = X.to_flat(lin.jac.adjoint_times(X.from_flat(b, e, tdom, np.float64)), din)
+            res["adj_real"] = ar
     except Exception as e:
         return cc, {"error": type(e).__name__, "msg": str(e)[:160], "where": err_site(e)}
     return cc, res
@@ -639,6 +653,9 @@ def finish_complex_model(ctx, todo, outs):
             diffs.append("jacobian")
         if not cclose(r["adj"], ma):
             diffs.append("adjoint")
+        if not cclose(r["adj_real"], r["jac"].conj().T, 1e-12):
+            ctx.counterexample(case, "complex constants/input: adjoint Jacobian applied to REAL-dtype cotangents is not the "
+                               "conjugate transpose", {"site": "complex-model", "kind": "adjoint-real-cotangent"})
         if diffs:
             ctx.disagree(case, "real (complex): " + ", ".join(diffs) + " differ", "model (complex)",
                          note="complex model: " + ", ".join(diffs))
@@ -711,6 +728,7 @@ def run(ctx):
     aux += AUX.gen(ctx.rng, ctx.n(120, 800))
     aux += AUX.gen_cmetric(ctx.rng, ctx.n(70, 600))
     aux += AUX2.gen_creal(ctx.rng, ctx.n(70, 600)) + AUX2.gen_jaxop(ctx.rng, ctx.n(10, 60)) + AUX2.gen_mlin(ctx.rng, ctx.n(40, 400))
+    aux += AUX3.gen_spaces(ctx.rng, ctx.n(88, 880))
     for c in aux:
         ctx.stat("aux:" + c["aux"])
         ctx.case(c, nontrivial=True)
